@@ -411,6 +411,11 @@ def check_C19(tier):
         # the same fused odd-ring aromatic system kekulised by both threads for the first time in the process
         ("encoder || encoder (same odd-ring aromatic system, matching needs augmentation)",
          [["enc", "c2cc3c4cccc5cccc(c3cc2)c54"], ["enc", "c2cc3c4cccc5cccc(c3cc2)c54"]]),
+        # the same input in both threads (shared memo of a result, if any, is filled and read concurrently)
+        ("decoder || decoder (same input)", [["decattr", "[Ge][=Si][C@@H1][Branch1][C][Cl][Ring1][Ring2].[13CH3][N+1]"],
+                                             ["decattr", "[Ge][=Si][C@@H1][Branch1][C][Cl][Ring1][Ring2].[13CH3][N+1]"]]),
+        ("encoder || encoder (same input, rings, branches, stereo)", [["enc", "F/C=C/[C@@]12CC(C1)C[Se]2(=O)C.[Na+]"],
+                                                                     ["enclax", "F/C=C/[C@@]12CC(C1)C[Se]2(=O)C.[Na+]"]]),
         # one call re-reads a symbol it has just cached while the other floods the symbol cache with new symbols
         ("decoder || decoder (second thread floods the symbol cache with 1100 new symbols)",
          [["dec", "[C][13CH1][O][13CH1][N][13CH1]"], ["dec", "".join("[%dC]" % k for k in range(14, 1114))]]),
